@@ -87,7 +87,7 @@ func (x *Exec) callStatic(fn *ssa.Function, args []Value, bind []Value, c *ssa.C
 		x.Summ[name]++
 		return in(x, &CallCtx{Fn: fn, Args: args, Common: c, Instr: x.curInstr, Caller: x.curCaller})
 	}
-	if (x.P.MergeFns[name] || x.localMerge[name]) && !x.Cfg.NoMerge {
+	if (x.P.MergeFns[name] || x.localMerge[name]) && !x.Cfg.NoMerge && !x.noMerge {
 		x.Summ["merged:"+name]++
 		return x.mergeCall(fn, args, bind)
 	}
